@@ -80,16 +80,94 @@ func locate(g *cfg.CFG, pos token.Pos) (*cfg.Block, int) {
 	return nil, -1
 }
 
-// useResult describes one path outcome of mustUse.
+// dropSite describes where a value is lost.
 type dropSite struct {
 	pos  token.Pos
 	what string // "redefined" | "exit"
 	node ast.Node
 }
 
-// mustUse walks forward from (b,i) exclusive and returns the sites where v is
-// redefined, or the function exits, before any read of v. namedResult says v is
-// a named result (a bare return then reads it). exempt may waive an exit node.
+// propagates reports whether node n hands v on: returns it, passes it to a
+// call, or stores it somewhere else. A mere test (v != nil) does not count.
+func propagates(p *core.Program, n ast.Node, v types.Object) bool {
+	mentions := func(e ast.Node) bool {
+		f := false
+		ast.Inspect(e, func(m ast.Node) bool {
+			if id, ok := m.(*ast.Ident); ok && p.ObjectOf(id) == v {
+				f = true
+			}
+			return !f
+		})
+		return f
+	}
+	found := false
+	ast.Inspect(n, func(m ast.Node) bool {
+		if found {
+			return false
+		}
+		switch x := m.(type) {
+		case *ast.ReturnStmt:
+			for _, r := range x.Results {
+				if mentions(r) {
+					found = true
+				}
+			}
+		case *ast.CallExpr:
+			for _, a := range x.Args {
+				if mentions(a) {
+					found = true
+				}
+			}
+		case *ast.AssignStmt:
+			for _, r := range x.Rhs {
+				if _, isCall := ast.Unparen(r).(*ast.CallExpr); !isCall && mentions(r) {
+					found = true
+				}
+			}
+		case *ast.FuncLit:
+			if mentions(x) {
+				found = true
+			}
+			return false
+		}
+		return true
+	})
+	return found
+}
+
+// nilTest classifies a block-ending condition: +1 if it is `v != nil`,
+// -1 if it is `v == nil`, 0 otherwise.
+func nilTest(p *core.Program, n ast.Node, v types.Object) int {
+	e, ok := n.(ast.Expr)
+	if !ok {
+		return 0
+	}
+	be, ok := ast.Unparen(e).(*ast.BinaryExpr)
+	if !ok || (be.Op != token.NEQ && be.Op != token.EQL) {
+		return 0
+	}
+	x, y := ast.Unparen(be.X), ast.Unparen(be.Y)
+	if id, ok := y.(*ast.Ident); !ok || id.Name != "nil" {
+		x, y = y, x
+		if id, ok := y.(*ast.Ident); !ok || id.Name != "nil" {
+			return 0
+		}
+	}
+	id, ok := x.(*ast.Ident)
+	if !ok || p.ObjectOf(id) != v {
+		return 0
+	}
+	if be.Op == token.NEQ {
+		return 1
+	}
+	return -1
+}
+
+// mustUse walks forward from (b,i) exclusive and returns the sites where the
+// (possibly non-nil) error value v is redefined, or the function exits, before
+// v has been propagated. Branches on which v is known to be nil are discharged.
+// namedResult says v is a named result (a bare return then returns it).
+// exempt may waive an exit node.
 func mustUse(p *core.Program, g *cfg.CFG, b *cfg.Block, i int, v types.Object, namedResult bool, exempt func(ret ast.Node, blk *cfg.Block) bool) []dropSite {
 	var drops []dropSite
 	seen := map[*cfg.Block]bool{}
@@ -97,10 +175,10 @@ func mustUse(p *core.Program, g *cfg.CFG, b *cfg.Block, i int, v types.Object, n
 	walk = func(b *cfg.Block, from int) {
 		for j := from; j < len(b.Nodes); j++ {
 			n := b.Nodes[j]
-			if nodeReads(p, n, v) {
-				return
-			}
 			if rs, ok := n.(*ast.ReturnStmt); ok {
+				if propagates(p, rs, v) {
+					return
+				}
 				if namedResult && len(rs.Results) == 0 {
 					return
 				}
@@ -110,13 +188,24 @@ func mustUse(p *core.Program, g *cfg.CFG, b *cfg.Block, i int, v types.Object, n
 				drops = append(drops, dropSite{rs.Pos(), "exit", rs})
 				return
 			}
+			if propagates(p, n, v) {
+				return
+			}
 			if nodeWrites(p, n, v) {
 				drops = append(drops, dropSite{n.Pos(), "redefined", n})
 				return
 			}
 		}
+		succs := b.Succs
+		if len(b.Nodes) > 0 && len(b.Succs) == 2 {
+			switch nilTest(p, b.Nodes[len(b.Nodes)-1], v) {
+			case 1:
+				succs = b.Succs[:1]
+			case -1:
+				succs = b.Succs[1:]
+			}
+		}
 		if len(b.Succs) == 0 {
-			// fell off the end of the function (or a no-return call)
 			if len(b.Nodes) > 0 {
 				if es, ok := b.Nodes[len(b.Nodes)-1].(*ast.ExprStmt); ok {
 					if call, ok := es.X.(*ast.CallExpr); ok {
@@ -131,7 +220,7 @@ func mustUse(p *core.Program, g *cfg.CFG, b *cfg.Block, i int, v types.Object, n
 			}
 			return
 		}
-		for _, s := range b.Succs {
+		for _, s := range succs {
 			if !seen[s] {
 				seen[s] = true
 				walk(s, 0)
